@@ -430,4 +430,36 @@ def buildK (S : Schema) (vid : Validator → VId) : Nat → String → Inv → K
       (inv.children.filter (fun ch => ch.1 == lv)).map (fun ch =>
         (ch.2.1, vid vs, Tree.node (buildK S vid fuel ch.2.2.1 ch.2.2.2)))
 
+/-! ### construction orders: does a component that EXISTS have its route, whatever the power state was when it was added?
+
+A component's life on one owner: the owner is powered on / off, sub-components of the dynamic levels are registered and
+un-registered in any order.  `registers lv on` says whether the `add_request` / `remove_request` site of level `lv` RUNS when the
+owner's power state is `on` (regenerated: Gen/RequestSites — a site whose guards read a power / operating state runs only when
+the node is ON, the shape of seeded C05-e; a site without such a guard always runs). -/
+
+structure CState where
+  on : Bool
+  /-- the object graph's registry: what exists -/
+  comps : List (Level × Key)
+  /-- the keys of the dynamic request managers -/
+  routes : List (Level × Key)
+deriving DecidableEq, Repr
+
+inductive COp
+  | power (on : Bool)
+  | add (lv : Level) (k : Key)
+  | remove (lv : Level) (k : Key)
+deriving DecidableEq, Repr
+
+def cstep (registers : Level → Bool → Bool) (s : CState) : COp → CState
+  | .power b => { s with on := b }
+  | .add lv k =>
+    { s with comps := (lv, k) :: s.comps.filter (· ≠ (lv, k)),
+             routes := if registers lv s.on then (lv, k) :: s.routes.filter (· ≠ (lv, k)) else s.routes }
+  | .remove lv k =>
+    { s with comps := s.comps.filter (· ≠ (lv, k)),
+             routes := if registers lv s.on then s.routes.filter (· ≠ (lv, k)) else s.routes }
+
+def crun (registers : Level → Bool → Bool) (s : CState) (ops : List COp) : CState := ops.foldl (cstep registers) s
+
 end Primaite.Schema
